@@ -4,7 +4,7 @@ CONSTANTS
   RContents = {"A", "B", "X"}
   Procs = {"timer"}
   Listeners = {"l1", "l2"}
-  InitListeners = {"l1"}
+  InitListeners = {"l1", "l2"}
   MaxWrites = 0
   Atomic = TRUE
   Exclusive = FALSE
